@@ -1,4 +1,5 @@
 #!/bin/bash
+export VERIF_SKIP_EVIDENCE=1
 # try_mutant.sh <sed-expr> <file-in-repo> <prop>... : apply a one-line mutation to /repo, run the checks, undo it
 expr="$1"; file="$2"; shift 2
 cd /repo && git diff --quiet || { echo "repo dirty"; exit 2; }
